@@ -238,8 +238,10 @@ def stepOp (a : TAcc) (line : String) : TAcc :=
             let blocked := b == "blocked=1"
             if live > lv.cfg.maxN + (if blocked then 0 else 1) then
               { a with err := some s!"M: op#{a.nops} M-class: {live} buffers alive with the back end held in the sink, buff_max_num is {lv.cfg.maxN} (C10_buffers_bounded)" }
-            else if blocked && live != lv.cfg.maxN then
-              { a with err := some s!"M: op#{a.nops} M-class: producer blocked on back-pressure with {live} buffers alive, buff_max_num is {lv.cfg.maxN}: blocked before the limit" }
+            -- a blocked producer does not imply live = max: after it blocked, the back end may still delete buffers
+            -- (buff_num_ > min) without waking it; C10_buffers_bounded only gives min <= buff_num_ <= max there
+            else if blocked && live < lv.cfg.minN then
+              { a with err := some s!"M: op#{a.nops} M-class: producer blocked on back-pressure with {live} buffers alive, buff_min_num is {lv.cfg.minN}" }
             else expectLine { a with tl := rest, live := some lv', tags := a.tags ++ [if blocked then "fillhold-blocked" else "fillhold-free"] } "P fillhold" "fillhold"
           | none, _ => { a with err := some s!"op#{a.nops} unparsable M held line [{ml.take 60}]" }
         | _ => expectLine a "M held live=<n> blocked=<b>" "fillhold"
